@@ -120,53 +120,97 @@ def forest_states(tier, seed, tag):
     return states, r
 
 
-def forest_check(prop, tier, seed, props_judged=None, drive_profile="std"):
-    """C04 / C05 / C06 (and the forest-engine parts of other properties)."""
-    props_judged = props_judged or {prop}
+FOREST_VARIANTS = {
+    # prop: (drive profile, log views, replay op filter, extra TLC state generator, replay all ops on the forest dump too)
+    "C04": ("", False, None, None, True),
+    "C05": ("", False, None, None, True),
+    "C06": ("", False, None, None, True),
+    "C11": ("maps", True, None, None, True),
+    "C12": ("clone", False, ["clone_node", "clone_with_prefixes"], "scope", True),
+    "C18": ("ws", False, ["riw", "riw2"], "ws", False),
+    "C10": ("ns", False, ["cmp"], "scope", False),
+    "C15": ("ns", False, ["dedup", "dedup2"], "scope", False),
+}
+
+
+def forest_check(prop, tier, seed):
+    """The forest engine: C04 / C05 / C06 and, with their own drivers and generators, C10 C11 C12 C15 C18."""
+    profile, views, only_ops, extra, full_replay = FOREST_VARIANTS[prop]
     exe = vlib.build_harness()
     d = vlib.workdir(f"forest_{prop}")
-    cov = {}
-    # 1. L1 model checking: the specification's own invariants
     quick = tier == "quick"
+    mcs = []
+    # 1. L1 model checking: the specification's own invariants
     cfgname = write_cfg(f"gen_{prop}_mc.cfg", FOREST_CFG.format(
         maxnode=3 if quick else 4, names="Names1" if quick else "Names2", texts="TextsXS", maxtext=2, dump="FALSE",
         invs="Valid RefusalsAreStutters Total RiwIdempotent", props="PROPERTY StableIds"))
     r_mc = mc("MCForest.tla", cfgname, workers=12, timeout=3000, tag=prop + "_mc", xmx="16g")
     os.remove(os.path.join(vlib.SPEC, cfgname))
-    # 2. spec -> code: every reachable small state x every call instance over every argument tuple
-    states, r_dump = forest_states(tier, seed, prop)
+    mcs.append(r_mc)
     rnd = random.Random(seed)
-    rnd.shuffle(states)
-    nstates = 400 if quick else 6000
-    chosen = states[:nstates]
-    sp = os.path.join(d, "states.ndjson")
-    with open(sp, "w") as f:
-        for st in chosen:
-            f.write(json.dumps(st) + "\n")
-    rp = os.path.join(d, "replay.ndjson")
-    args = ["forest-replay", "--states", sp, "--out", rp, "--seed", str(seed)]
-    if not quick:
-        args.append("--full")
-    vlib.run_harness(exe, args, timeout=1800)
-    v1 = vlib.validate_trace(rp, nshards=14, timeout=1800, tag=prop + "_rp")
-    log(f"[replay] {len(chosen)} states, {v1['events']} events validated, {len(v1['rejects'])} rejections")
+    traces = []
+    nreplayed = 0
+    # 2. spec -> code: every reachable small state x every call instance over every argument tuple
+    if full_replay:
+        states, r_dump = forest_states(tier, seed, prop)
+        mcs.append(r_dump)
+        rnd.shuffle(states)
+        chosen = states[: ((150 if views else 400) if quick else 5200)]
+        sp = os.path.join(d, "states.ndjson")
+        with open(sp, "w") as f:
+            for st in chosen:
+                f.write(json.dumps(st) + "\n")
+        rp = os.path.join(d, "replay.ndjson")
+        args = ["forest-replay", "--states", sp, "--out", rp, "--seed", str(seed)]
+        if not quick or views:
+            args.append("--full")
+        if views:
+            args.append("--views")
+        vlib.run_harness(exe, args, timeout=3600)
+        traces.append(("replay", rp))
+        nreplayed += len(chosen)
+    # 2b. property-specific TLC generators, with the property's calls on every node
+    if extra:
+        if extra == "ws":
+            gstates, r_g = dump_states("MCWs.tla", "SPECIFICATION Spec\nCONSTANT Dump = TRUE\nINVARIANTS ValidInput RiwLaws DumpState\nCHECK_DEADLOCK FALSE\n", prop + "_ws")
+        else:
+            gstates, r_g = dump_states("MCScope.tla", SCOPE_CFG.format(dump="TRUE"), prop + "_scope")
+        mcs.append(r_g)
+        rnd.shuffle(gstates)
+        gchosen = gstates[: (1200 if quick else 30000)]
+        sp2 = os.path.join(d, "gstates.ndjson")
+        with open(sp2, "w") as f:
+            for st in gchosen:
+                f.write(json.dumps(st) + "\n")
+        rp2 = os.path.join(d, "greplay.ndjson")
+        vlib.run_harness(exe, ["forest-replay", "--states", sp2, "--out", rp2, "--seed", str(seed), "--ops", ",".join(only_ops)], timeout=3600)
+        traces.append(("generated", rp2))
+        nreplayed += len(gchosen)
     # 3. code -> spec: seeded random histories, larger than TLC can enumerate
     dp = os.path.join(d, "drive.ndjson")
-    episodes = 300 if quick else 6000
-    vlib.run_harness(exe, ["forest-drive", "--seed", str(seed), "--episodes", str(episodes), "--len", "40", "--out", dp], timeout=1800)
-    v2 = vlib.validate_trace(dp, nshards=14, timeout=2400, tag=prop + "_dr")
-    log(f"[drive] {episodes} episodes, {v2['events']} events validated, {len(v2['rejects'])} rejections")
-    # 4. collate
+    episodes = (200 if views else 300) if quick else 6000
+    dargs = ["forest-drive", "--seed", str(seed), "--episodes", str(episodes), "--len", "40", "--out", dp]
+    if profile:
+        dargs += ["--profile", profile]
+    if views:
+        dargs += ["--views", "--maxnodes", "14"]
+    vlib.run_harness(exe, dargs, timeout=3600)
+    traces.append(("drive", dp))
+    # 4. validate and collate
     violations, known, notes = [], {}, 0
     classes = set()
     samples = []
-    for v in (v1, v2):
-        for idx in range(len(v["lines"])):
+    events = {}
+    for name, path in traces:
+        v = vlib.validate_trace(path, nshards=14, timeout=2400 if quick else 20000, tag=f"{prop}_{name}")
+        events[name] = v["events"]
+        log(f"[{name}] {v['events']} events validated, {len(v['rejects'])} rejections")
+        for idx in range(0, len(v["lines"]), max(1, len(v["lines"]) // 20000)):
             c = event_class(v["lines"], idx)
             if c:
                 classes.add(c)
         for rj in v["rejects"]:
-            if rj["prop"] not in props_judged:
+            if rj["prop"] != prop:
                 notes += 1
                 continue
             if rj["known"]:
@@ -174,35 +218,32 @@ def forest_check(prop, tier, seed, props_judged=None, drive_profile="std"):
                 known[rj["known"]] += 1
                 continue
             sc = vlib.scenario_for(v["lines"], rj["line"])
-            path = vlib.save_replay(prop, sc, rj)
             if len(violations) < 25:
-                violations.append(path)
-                log(f"  reject: {rj['op']} a={rj['a']} res={rj['res']} detail={json.dumps(rj['detail'])[:200]}")
-    for idx in (1, 2, 3):
-        if idx < len(v2["lines"]):
-            ev = json.loads(v2["lines"][idx])
-            samples.append({k: ev[k] for k in ("op", "a", "res", "ret")})
+                violations.append(vlib.save_replay(prop, sc, rj))
+                log(f"  reject: {rj['op']} a={rj['a']} res={rj['res']} detail={json.dumps(rj['detail'])[:240]}")
+        if name == "drive":
+            for idx in (1, 2, 3):
+                if idx < len(v["lines"]):
+                    ev = json.loads(v["lines"][idx])
+                    samples.append({k: ev[k] for k in ("op", "a", "res", "ret")})
     kf = {f["id"]: f for f in vlib.load_known()}
     known_lines = [f"{kid} ({cnt} events): {kf.get(kid, {}).get('what', '')}" for kid, cnt in sorted(known.items())]
     cov = {
-        "states": r_mc["distinct"] + r_dump["distinct"],
-        "transitions": r_mc["generated"] + r_dump["generated"],
-        "traces_validated_against_impl": episodes + len(chosen),
-        "evaluations": v1["events"] + v2["events"],
+        "states": sum(r["distinct"] for r in mcs), "transitions": sum(r["generated"] for r in mcs),
+        "traces_validated_against_impl": episodes + nreplayed,
+        "evaluations": sum(events.values()),
         "distinct_nontrivial": len(classes),
         "rule": "events are public calls executed on the real crate and judged by TLC against L1; distinct = distinct (operation, result, kinds of the node arguments, structural relation between the two node arguments) classes observed",
-        "samples": samples,
-        "exhaustive": False,
+        "samples": samples, "exhaustive": False,
         "l1_model": {"maxnode": 3 if quick else 4, "distinct_states": r_mc["distinct"], "invariants": ["Valid", "RefusalsAreStutters", "Total", "RiwIdempotent", "StableIds"]},
-        "replayed_states": len(chosen), "reachable_states_up_to_iso": len(states),
-        "replay_events": v1["events"], "drive_events": v2["events"], "drive_episodes": episodes,
+        "replayed_states": nreplayed, "events": events, "drive_episodes": episodes, "drive_profile": profile or "mixed",
         "rejections_charged_to_other_properties": notes,
     }
     import shutil
     shutil.rmtree(d, ignore_errors=True)
     return {"violations": violations, "known": known_lines, "coverage": cov,
             "assumptions": ["TLC 1.8 and the Json/IOUtils community modules", "the harness projection (harness/src/proj.rs), re-read and compared on every rebuilt state",
-                            "small-scope: exhaustive part limited to forests of <= 4 node ids"]}
+                            "small-scope: exhaustive part limited to forests of <= 4 node ids and the property's TLC generator"]}
 
 
 def dump_states(module, cfgtext, tag, workers=8):
@@ -757,9 +798,14 @@ def intern_check(prop, tier, seed):
 
 
 CHECKS = {
-    "C04": lambda p, t, s: forest_check(p, t, s),
-    "C05": lambda p, t, s: forest_check(p, t, s),
-    "C06": lambda p, t, s: forest_check(p, t, s),
+    "C04": forest_check,
+    "C05": forest_check,
+    "C06": forest_check,
+    "C10": forest_check,
+    "C11": forest_check,
+    "C12": forest_check,
+    "C15": forest_check,
+    "C18": forest_check,
     "C01": ser_check,
     "C14": ser_check,
     "C16": ser_check,
